@@ -10,7 +10,9 @@
    AuthFirstPacket and judges every observation against the table.
 """
 import concurrent.futures
+import json
 import os
+import re
 
 import lib
 
@@ -29,8 +31,23 @@ JVM = {"JAVA_TOOL_OPTIONS": "-Xss64m -XX:ParallelGCThreads=2 -XX:TieredStopAtLev
 INV = "Agreement KeyAgreement Soundness AdminGate AdminReach"
 
 
-def _sub(scope, maxt, dev="{}", inv=INV, w=2):
+def _sub(scope, maxt, dev="{{}}", inv=INV, w=2):
     return {"W": w, "MAXT": maxt, "SCOPE": scope, "DEV": dev, "INV": inv}
+
+
+def neg_matrix(ctx, flags):
+    """One TLC run in which every behaviour carries one deviation flag; returns {flag: set(invariants it breaks)}."""
+    dev = "{" + ",".join('{"%s"}' % f for f in flags) + "}"
+    r = lib.run_tlc(ctx, "HandshakeNeg", "HandshakeNeg.cfg", _sub("neg", 0, dev), tag="neg_matrix", workers=1, timeout=900, env=JVM)
+    lib.require_ok(r, "neg_matrix")
+    m = re.search(r'<<"NEGMATRIX", (".*")>>', r.out)
+    if not m:
+        raise lib.Inconclusive("HandshakeNeg printed no matrix")
+    doc = json.loads(lib._unq(m.group(1)))
+    out = {}
+    for i, f in enumerate(doc["flags"]):
+        out[f] = {doc["invs"][j] for j, v in enumerate(doc["matrix"][i]) if v == 1}
+    return r, out
 
 
 def run(ctx):
@@ -45,23 +62,21 @@ def run(ctx):
                                           tag="mc_sound_w3", workers=4, timeout=900, env=JVM)
         jobs["mc_neg_space"] = pool.submit(lib.run_tlc, ctx, "Handshake", "Handshake_mc.cfg", _sub("neg", 7),
                                            tag="mc_neg_space_all_tampers", workers=4, timeout=900, env=JVM)
-    for d in SOUND_DEVS:
-        jobs["neg_" + d] = pool.submit(lib.run_tlc, ctx, "Handshake", "Handshake_mc.cfg", _sub("neg", 1, '{"%s"}' % d),
-                                       tag="neg_" + d, workers=1, timeout=900, env=JVM, expect_violation=True)
+    negf = pool.submit(neg_matrix, ctx, SOUND_DEVS)
     # compile the harness while TLC runs
     warm = pool.submit(lambda: lib.run_go(ctx, "server", "TestVerifC06Warm", tag="warm", prefixes=("c06", "c07", "shared")))
     res = {k: f.result() for k, f in jobs.items()}
     warm.result()
     pool.shutdown(wait=False)
+    negr, broken = negf.result()
+    for d in SOUND_DEVS:
+        want = "AdminGate" if d == "AdminNoSid" else "Soundness"
+        if want not in broken.get(d, set()):
+            raise lib.Inconclusive("deviation %s does not break %s in the model (breaks %s): the invariant would be vacuous" % (d, want, broken.get(d)))
+    ctx.log("vacuity: %s (%d states, %.1fs)" % ({d: sorted(broken[d]) for d in SOUND_DEVS}, negr.distinct, negr.wall))
     for name, r in res.items():
-        if name.startswith("neg_"):
-            want = ("AdminGate",) if name == "neg_AdminNoSid" else ("Soundness",)
-            if r.violated not in want:
-                raise lib.Inconclusive("deviation %s does not break %s in the model (got %s): the invariant would be vacuous" % (name, want, r.violated))
-            ctx.log("%s: %s violated after %d states, as required" % (name, r.violated, r.distinct))
-        else:
-            lib.require_ok(r, name)
-            ctx.log("%s: Soundness, AdminGate, KeyAgreement hold, %d distinct states (%.1fs)" % (name, r.distinct, r.wall))
+        lib.require_ok(r, name)
+        ctx.log("%s: Soundness, AdminGate, KeyAgreement hold, %d distinct states (%.1fs)" % (name, r.distinct, r.wall))
     table = res["gen_sound"].behaviours
     by = {}
     for b in table:
@@ -108,7 +123,7 @@ def run(ctx):
         "abstract_cases_in_table": len(table),
         "verdict_classes": by,
         "exhaustive": True,
-        "checker_cmd": "tlc Handshake.tla (6 negative configs) / HandshakeGen.tla (Scope=sound) + go test -run TestVerifC07Replay",
+        "checker_cmd": "tlc Handshake.tla / HandshakeNeg.tla (6 deviation flags) / HandshakeGen.tla (Scope=sound) + go test -run TestVerifC07Replay",
         "harness_stats": gs,
     }
     return lib.finish(ctx, LEVEL, cov, ASSUME)
